@@ -248,7 +248,7 @@ def gen_case(rng, uid0, real=None):
                 run["crash_at_fit"] = rng.randint(1, run["steps"] ** run["dims"])
                 ss["crash_after"] = rng.randint(1, 2)
         if kind == "combined":
-            run["n_analyses"] = rng.choice([2, 3])
+            run["n_analyses"] = rng.choice([2, 3, 2, 3, 11, 12])  # (two-digit child indices)
             run["analysis"]["attrs"] = {"data": [1, 2]}
         runs.append(run)
     case = {"runs": runs}
